@@ -20,6 +20,24 @@ Translator plugin for C15: the parts of yash-executor that are *tables*.
    returns when `any(ptr_eq)` finds the task queued, which end `Executor::step` pops from, which end
    `ExecutorState::enqueue` / `enqueue_forwarding` push to (`YashModel.Executor.queue_tables_agree`).
 
+3. waker.rs (wave 3) — the raw waker vtable: which function sits in which slot of
+   `RawWakerVTable::new(clone, wake, wake_by_ref, drop)` and, per slot, the sequence of reference-count
+   operations of that function (`Rc::increment_strong_count`, `Rc::decrement_strong_count`,
+   `Rc::from_raw(data).wake()`, `RawWaker::new(data, VTABLE)`); `into_waker` must be `Rc::into_raw` + `RawWaker::new`
+   + `Waker::from_raw` without any count operation (`YashModel.Executor.vtable_tables_agree`: the vtable
+   entries of Executor/RcModel.lean are the interpretation of these rows).  Equivalent shapes read the same
+   way: with or without the inner `unsafe { }` block, `Rc::<Task>::f` / `Rc::<Task<'_>>::f` / `Rc::f`,
+   `data.cast()` / `data.cast::<Task>()` / `data as *const Task`, `drop(Rc::from_raw(data))` for a decrement,
+   `let task = Rc::from_raw(data); task.wake()` for `from_raw(data).wake()`, a vtable function under another
+   name (the slot decides), a `static`/`const` VTABLE with or without `&`.
+
+4. task.rs `Task::poll` / executor.rs `run_until_stalled` (wave 3) — the facts the model's `poll` and
+   `runUntilStalled` rest on: an emptied slot makes `poll` return `true` without polling; the slot is emptied
+   exactly when the future returned `Ready`; the result is that readiness; the slot is borrowed with
+   `try_borrow_mut().expect(..)` (the recursion guard); the waker is `into_waker(Rc::clone(self))`;
+   `run_until_stalled` adds one to its result exactly for the `Some(true)` steps and loops until `None`
+   (`YashModel.Executor.poll_tables_agree`).
+
 Also extracted: the variant lists of `enum Relay` and `enum TryReceiveError` (declaration order, payload).
 
 Equivalent shapes that are read the same way: arms in any order, or-patterns split into separate arms or
@@ -35,6 +53,7 @@ import re
 FWD = "yash-executor/src/forwarder.rs"
 TASK = "yash-executor/src/task.rs"
 EXEC = "yash-executor/src/executor.rs"
+WAKER = "yash-executor/src/waker.rs"
 
 
 # ---------------------------------------------------------------------------------- lexical helpers
@@ -334,6 +353,112 @@ def lean_arm(a):
 
 # ---------------------------------------------------------------------------------- the extractor
 
+
+# ---------------------------------------------------------------------------------- waker.rs (wave 3)
+
+RC = r"Rc::(?:<Task(?:<'_>)?>::)?"
+PTR = r"(?:data\.cast\(\)|data\.cast::<Task(?:<'_>)?>\(\)|dataas\*constTask(?:<'_>)?|data\.cast::<_>\(\))"
+
+
+def unwrap_unsafe(b):
+    """whitespace-free body; peel `unsafe{…}` wrappers that span the whole body"""
+    while True:
+        m = re.fullmatch(r"unsafe\{(.*)\};?", b, re.S)
+        if not m or _unbalanced(m.group(1)):
+            return b
+        b = m.group(1)
+
+
+def _unbalanced(t):
+    d = 0
+    for c in t:
+        d += c == "{"
+        d -= c == "}"
+        if d < 0:
+            return True
+    return d != 0
+
+
+def vtable_ops(h, src, fn):
+    """the count operations of one vtable function, in order"""
+    b = unwrap_unsafe(re.sub(r"\s+", "", fn_body(h, src, fn, WAKER)))
+    ops = []
+    stmts = [x for x in split_top(h, b, ";", f"fn {fn} of {WAKER}") if x]
+    stmts = [unwrap_unsafe(x) for x in stmts]
+    i = 0
+    while i < len(stmts):
+        st = stmts[i]
+        if re.fullmatch(RC + r"increment_strong_count\(" + PTR + r"\)", st):
+            ops.append("inc")
+        elif re.fullmatch(RC + r"decrement_strong_count\(" + PTR + r"\)", st) or \
+                re.fullmatch(r"(?:core::mem::|std::mem::|mem::)?drop\(" + RC + r"from_raw\(" + PTR + r"\)\)", st):
+            ops.append("dec")
+        elif re.fullmatch(RC + r"from_raw\(" + PTR + r"\)\.wake\(\)", st):
+            ops.append("fromRawWake")
+        elif (m := re.fullmatch(r"let(\w+)=" + RC + r"from_raw\(" + PTR + r"\)", st)) and i + 1 < len(stmts) \
+                and stmts[i + 1] == m.group(1) + ".wake()":
+            ops.append("fromRawWake")
+            i += 1
+        elif re.fullmatch(r"RawWaker::new\(data,&?VTABLE\)", st) and i == len(stmts) - 1:
+            ops.append("newRaw")
+        else:
+            h.fail(f"`fn {fn}` of {WAKER}: statement of unknown shape `{st[:120]}` "
+                   f"(known: Rc::increment_strong_count / decrement_strong_count / from_raw(data).wake() / "
+                   f"RawWaker::new(data, VTABLE))")
+        i += 1
+    return ops
+
+
+def waker_tables(h):
+    src = strip(h.read(WAKER))
+    flat = re.sub(r"\s+", "", src)
+    m = re.search(r"(?:const|static)VTABLE:&?(?:'static)?RawWakerVTable=&?RawWakerVTable::new\((\w+),(\w+),(\w+),(\w+),?\);", flat)
+    if not m:
+        h.fail(f"{WAKER}: cannot read `VTABLE = RawWakerVTable::new(clone, wake, wake_by_ref, drop)`")
+    slots = dict(zip(("clone", "wake", "wake_by_ref", "drop"), m.groups()))
+    table = {slot: vtable_ops(h, src, fn) for slot, fn in slots.items()}
+    iw = re.sub(r"\s+", "", fn_body(h, src, "into_waker", WAKER))
+    if re.search(r"strong_count|\.clone\(\)|Rc::clone|from_raw\((?!raw_waker|RawWaker)", iw.replace("Waker::from_raw", "W::fr")) \
+            or not re.search(r"Rc::into_raw\(task\)", iw) or not re.search(r"RawWaker::new\(\w+,&?VTABLE\)", iw):
+        h.fail(f"`fn into_waker` of {WAKER}: not `Rc::into_raw(task)` + `RawWaker::new(data, VTABLE)` without count operations: `{iw[:160]}`")
+    return slots, table
+
+
+def poll_facts(h):
+    task = strip(h.read(TASK))
+    b = re.sub(r"\s+", "", fn_body(h, task, "poll", TASK))
+    facts = {}
+    # recursion guard
+    facts["guard"] = bool(re.search(r"self\.future\.try_borrow_mut\(\)\.expect\(", b))
+    if not facts["guard"] and not re.search(r"self\.future\.borrow_mut\(\)", b):
+        h.fail(f"`fn poll` of {TASK}: cannot read how the future slot is borrowed")
+    # emptied slot
+    m = re.search(r"letSome\((\w+)\)=(\w+)\.as_mut\(\)else\{return(true|false);?\};", b) or \
+        re.search(r"if(\w+)\.is_none\(\)\{return(true|false);?\}", b)
+    if not m:
+        h.fail(f"`fn poll` of {TASK}: cannot read what an emptied slot returns")
+    facts["empty_returns"] = m.groups()[-1] == "true"
+    # waker
+    facts["waker_from_clone"] = bool(re.search(r"into_waker\(Rc::clone\(self\)\)|into_waker\(self\.clone\(\)\)", b))
+    if not facts["waker_from_clone"]:
+        h.fail(f"`fn poll` of {TASK}: the waker is not `into_waker(Rc::clone(self))`")
+    # emptied on ready, result
+    m = re.search(r"let(\w+)=(\w+)\.is_ready\(\);if\1\{\*(\w+)=None;?\}\1$", b) or \
+        re.search(r"if(\w+)\.is_ready\(\)\{\*(\w+)=None;?(?:return)?true;?\}else\{false\}$", b) or \
+        re.search(r"match(\w+)\{Poll::Ready\(\(\)\)=>\{\*(\w+)=None;true\},?Poll::Pending=>false,?\}$", b)
+    if not m:
+        h.fail(f"`fn poll` of {TASK}: cannot read when the slot is emptied and what is returned: `…{b[-160:]}`")
+    facts["empties_on_ready"] = True
+    ex = strip(h.read(EXEC))
+    r = re.sub(r"\s+", "", fn_body(h, ex, "run_until_stalled", EXEC))
+    m = re.fullmatch(r"letmut(\w+)=0;whileletSome\((\w+)\)=self\.step\(\)\{"
+                     r"(?:if\2\{\1\+=1;?\}|\1\+=\2asusize;|\1\+=usize::from\(\2\);|if!\2\{continue;?\}\1\+=1;)\}\1", r)
+    if not m:
+        h.fail(f"`fn run_until_stalled` of {EXEC}: cannot read the loop: `{r[:200]}`")
+    facts["rus_counts_true"] = True
+    return facts
+
+
 def executor_tables(h):
     fwd = strip(h.read(FWD))
     variants = enum_variants(h, fwd, "Relay", FWD)
@@ -395,6 +520,9 @@ def executor_tables(h):
             h.fail(f"`fn {fn}` of {EXEC}: cannot read how the new task is queued")
         pushes[fn] = pm[0]
 
+    slots, vt = waker_tables(h)
+    facts = poll_facts(h)
+
     for v, _ in variants + [(e, "") for e in errors]:
         if not re.fullmatch(r"[A-Z]\w*", v):
             h.fail(f"variant name {v!r} of {FWD} is not usable as a Lean constructor name")
@@ -440,7 +568,26 @@ def executor_tables(h):
         f"/-- `ExecutorState::enqueue` (spawn_pinned) pushes the new task to this end (`{pushes['enqueue']}`) -/\n"
         f"def enqueuePush : End := {end[pushes['enqueue']]}\n\n"
         f"/-- `ExecutorState::enqueue_forwarding` (spawn) pushes the new task to this end (`{pushes['enqueue_forwarding']}`) -/\n"
-        f"def enqueueForwardingPush : End := {end[pushes['enqueue_forwarding']]}\n"
+        f"def enqueueForwardingPush : End := {end[pushes['enqueue_forwarding']]}\n\n"
+        f"/-- one reference-count operation of a function of the raw waker vtable of {WAKER} -/\n"
+        "inductive VtOp where\n"
+        "  /-- `Rc::increment_strong_count(data)` -/\n  | inc\n"
+        "  /-- `Rc::decrement_strong_count(data)` (or dropping `Rc::from_raw(data)`) -/\n  | dec\n"
+        "  /-- `Rc::from_raw(data).wake()`: the pointer becomes an `Rc<Task>` handle that `Task::wake` consumes -/\n  | fromRawWake\n"
+        "  /-- `RawWaker::new(data, VTABLE)`: a new raw waker on the same pointer -/\n  | newRaw\n"
+        "  deriving DecidableEq, Repr\n\n"
+        + "".join(
+            f"/-- slot `{slot}` of `RawWakerVTable::new(clone, wake, wake_by_ref, drop)` holds `fn {slots[slot]}`: its operations in order -/\n"
+            f"def {name} : List VtOp := [{', '.join('.' + o for o in vt[slot])}]\n\n"
+            for slot, name in (("clone", "vtCloneOps"), ("wake", "vtWakeOps"), ("wake_by_ref", "vtWakeByRefOps"), ("drop", "vtDropOps")))
+        + f"/-- `Task::poll` of {TASK} on an emptied slot returns this without polling anything -/\n"
+        f"def pollEmptyReturns : Bool := {'true' if facts['empty_returns'] else 'false'}\n\n"
+        "/-- `Task::poll` empties the slot exactly when the future returned `Poll::Ready`, and returns that readiness -/\n"
+        f"def pollEmptiesOnReady : Bool := {'true' if facts['empties_on_ready'] else 'false'}\n\n"
+        "/-- `Task::poll` borrows the slot with `try_borrow_mut().expect(..)`: a recursive poll panics instead of entering the future -/\n"
+        f"def pollGuards : Bool := {'true' if facts['guard'] else 'false'}\n\n"
+        f"/-- `Executor::run_until_stalled` of {EXEC} loops until `step()` is `None` and counts exactly the `Some(true)` steps -/\n"
+        f"def rusCountsTrue : Bool := {'true' if facts['rus_counts_true'] else 'false'}\n"
     )
     h.write("ExecutorTables", body)
 
